@@ -57,6 +57,10 @@ def strip_lean_comments(src: str) -> str:
             j = src.find('\n', i)
             i = n if j < 0 else j
             continue
+        if src[i] == "'":
+            m = re.match(r"'(\\x[0-9a-fA-F]{2}|\\u[0-9a-fA-F]{4}|\\.|[^\\'\n])'", src[i:i + 8])
+            if m and (i == 0 or not (src[i - 1].isalnum() or src[i - 1] in "_'")):
+                out.append("'c'"); i += len(m.group(0)); continue
         if src[i] == '"':
             j = i + 1
             while j < n and src[j] != '"':
